@@ -22,7 +22,11 @@ func vRootConfig(nproj, nver int) (*project.Config, []int) {
 			root[i] = vChoose("root-requires", nver+1)
 		}
 		if root[i] > 0 {
-			cfg.Requirements[fmt.Sprintf("r%d", i)] = project.RequirementConfig{Path: vPath(i), Version: vVersion(i, root[i]-1)}
+			name := fmt.Sprintf("r%d", i)
+			if n := vNames[vPath(i)]; n != "" {
+				name = n // requirements are usually named after the project: new projects may collide
+			}
+			cfg.Requirements[name] = project.RequirementConfig{Path: vPath(i), Version: vVersion(i, root[i]-1)}
 		}
 	}
 	return cfg, root
@@ -127,6 +131,7 @@ func VHarnessC11Get() {
 	nproj, nver := vParam("nproj"), vParam("nver")
 	vShape = vParam("shape")
 	vPatchy = vParam("query") == 2
+	vPseudoTop = vPatchy && vParam("pseudo") == 1
 	vSetNames()
 	r := vSetup(nproj, nver)
 	cfg, _ := vRootConfig(nproj, nver)
@@ -154,6 +159,9 @@ func VHarnessC11Get() {
 	cur, had := before[path]
 	got, has := after[path]
 	top := vVersion(target, nver-1)
+	if vPseudoTop {
+		top = vVersion(target, nver-2) // the greatest TAGGED version
+	}
 	want := ""
 	switch vParam("query") {
 	case 0, 3: // latest
@@ -165,6 +173,9 @@ func VHarnessC11Get() {
 			want = cur
 			for k := 0; k < nver; k++ {
 				v := vVersion(target, k)
+				if vPseudoTop && k == nver-1 {
+					continue
+				}
 				if semver.MajorMinor(v) == semver.MajorMinor(cur) && semver.Compare(v, want) > 0 {
 					want = v
 				}
